@@ -24,10 +24,14 @@ RealLine  == {"StandardNormal", "Normal", "Cauchy", "Gumbel", "StudentT", "SkewN
 NonNeg    == {"LogNormal", "Exp1", "Exp", "Gamma", "ChiSquared", "FisherF", "InverseGaussian", "Weibull"}
 UnitCoord == {"UnitCircle", "UnitDisc", "UnitSphere", "UnitBall"}
 
+ZetaNearOne(ft) == IF ft = "f32" THEN <<2097152, 508, 1677722>> ELSE <<3144765, 922746, 1845494>>      \* ordinals of 1.2f32 and 1.06f64
+
 \* results the documentation itself names as infinite
 DocumentedInfinite(e) ==
     \/ e.fam = "Exp" /\ LEQ(e.p[1], FZero) /\ e.ocls = <<"pinf">>          \* Exp(0): always +inf
-    \/ e.fam = "Zeta" /\ e.ocls = <<"pinf">>                                \* proposal overflow for s near 1
+    \* Zeta: x = u^(-1/(s-1)) overflows only for s close to 1: u >= 2^-53 (2^-24) gives a finite x
+    \* as soon as s - 1 > 53 ln2 / 709 = 0.052 (f64) resp. 24 ln2 / 88.7 = 0.19 (f32)
+    \/ e.fam = "Zeta" /\ e.ocls = <<"pinf">> /\ LLE(e.p[1], ZetaNearOne(e.ft))
 
 InSupportO(e, o) ==
     CASE e.fam \in RealLine  -> AllFin(o)
@@ -63,7 +67,7 @@ SweepOK(e) ==
     LET cl == IF e.fam \in {"WeightedAliasIndex", "WeightedTreeIndex"} THEN "int" ELSE "fin"
         lo == [out |-> <<e.min>>, ocls |-> <<cl>>, integral |-> TRUE, wpos |-> TRUE]
         hi == [out |-> <<e.max>>, ocls |-> <<cl>>, integral |-> TRUE, wpos |-> TRUE]
-        okinf == (e.fam = "Zeta") \/ (e.fam = "Exp" /\ LEQ(e.p[1], FZero))
+        okinf == (e.fam = "Zeta" /\ LLE(e.p[1], ZetaNearOne(e.ft))) \/ (e.fam = "Exp" /\ LEQ(e.p[1], FZero))
     IN  /\ e.panic = 0 /\ e.nan = 0 /\ e.ninf = 0 /\ (e.pinf = 0 \/ okinf)
         /\ e.nonint = 0 /\ e.zerow = 0
         /\ e.hasfin => (InSupportO(e, lo) /\ InSupportO(e, hi))
